@@ -28,8 +28,48 @@ def tie(ctx):
 
 
 def gen(rng):
+    if rng.random() < 0.07:
+        # thermal calculation of a gas net with heat losses and pipes declared against the flow: norm-factor clause only
+        s = netgen.gen_gas_heat_tree(rng)
+        s["c02"] = {"thermal_gas": True}
+        return s
     s = netgen.gen_hydraulic(rng, features={"p_outage": 0.15})
     return s
+
+
+def check_gas_thermal(net):
+    """norm factors and gas velocities at the two declared ends of every flowing pipe after a thermal calculation: they follow
+    from the reported pressure of that end and the fluid temperature at that end -- the inlet junction's temperature at the end
+    where the gas enters, the reported outlet temperature `t_outlet_k` at the end where it leaves"""
+    fails = []
+    fluid = net.fluid
+    rho_n = float(fluid.get_density(TN))
+    r, t = net.res_pipe, net.pipe
+    for idx in t.index:
+        m = r.at[idx, "mdot_from_kg_per_s"]
+        if not t.at[idx, "in_service"] or not np.isfinite(m) or abs(m) < 1e-5:
+            continue
+        fwd = m > 0
+        hh = {e: float(net.junction.height_m.at[t.at[idx, e]]) for e in ("from_junction", "to_junction")}
+        p_from = r.at[idx, "p_from_bar"] + pamb(hh["from_junction"])
+        p_to = r.at[idx, "p_to_bar"] + pamb(hh["to_junction"])
+        t_from = r.at[idx, "t_from_k"] if fwd else r.at[idx, "t_outlet_k"]
+        t_to = r.at[idx, "t_outlet_k"] if fwd else r.at[idx, "t_to_k"]
+        vn = m / rho_n / (np.pi * (t.at[idx, "inner_diameter_mm"] / 1000.0) ** 2 / 4)
+        for end, p, tk in (("from", p_from, t_from), ("to", p_to, t_to)):
+            exp = PN * tk * float(fluid.get_compressibility(p, tk)) / (TN * p)
+            got = r.at[idx, "normfactor_" + end]
+            if abs(got - exp) > 1e-7 * abs(exp) and not any(f["fingerprint"].startswith("C02:thermal:normfactor_" + end) for f in fails):
+                fails.append({"fingerprint": "C02:thermal:normfactor_%s:%s-flow" % (end, "forward" if fwd else "reverse"),
+                              "clause": "norm factor of a pipe end = pN T K(p,T)/(TN p) with that end's pressure and temperature",
+                              "detail": {"pipe": int(idx), "reported": float(got), "expected": float(exp), "p_abs": float(p),
+                                         "t_end": float(tk), "mdot": float(m)}})
+            gv = r.at[idx, "v_%s_m_per_s" % end]
+            if abs(gv - vn * exp) > 1e-7 * (1 + abs(vn * exp)) and not any(f["fingerprint"].startswith("C02:thermal:v_" + end) for f in fails):
+                fails.append({"fingerprint": "C02:thermal:v_%s:%s-flow" % (end, "forward" if fwd else "reverse"),
+                              "clause": "gas velocity of a pipe end = v_N * norm factor of that end",
+                              "detail": {"pipe": int(idx), "reported": float(gv), "expected": float(vn * exp)}})
+    return fails
 
 
 def check_net(net, spec):
@@ -139,6 +179,9 @@ def oracle(spec):
     net, e = netgen.try_run(spec, **dict(oracles.TIGHT, tolerance_colebrook=1e-10, max_iter_colebrook=200))
     if e is not None:
         return {"status": "skip:" + type(e).__name__}
+    if spec.get("c02", {}).get("thermal_gas"):
+        return {"status": "ok", "failures": check_gas_thermal(net), "hash": netgen.structure_hash(spec) + "tg",
+                "nontrivial": netgen.nontrivial(spec), "tags": ["gas", "thermal-normfactors"], "sample": netgen.summarize(spec)}
     return {"status": "ok", "failures": check_net(net, spec), "hash": netgen.structure_hash(spec),
             "nontrivial": netgen.nontrivial(spec),
             "tags": ["gas" if spec["fluid"] != "water" else "liquid", spec["options"]["friction_model"]],
